@@ -516,6 +516,11 @@ def explore(ctx, factor, bs):
 
     rng = ctx.rng
     big = not ctx.quick()
+    if factor > 1 and ctx.mismatches and all(m["what"].startswith("e2e:") for m in ctx.mismatches):
+        # only the end-to-end text comparison differs (every C01 observation agreed, the oracle held on every form of
+        # the first pass): the mismatches carry the workbooks and the first differing characters
+        ctx.notes["search_skipped"] = "only byte-level differences of the end-to-end composition; the mismatches carry the workbooks"
+        return
     if factor > 1 and ctx.mismatches and all(m["what"].startswith("implementation rejects") for m in ctx.mismatches):
         # the model accepts documents the implementation rejects: a rejected conversion has no output the
         # oracle could fail on, so a search for an oracle failure is pointless; the mismatches carry the forms
